@@ -28,27 +28,47 @@ pub enum POp {
     PendingAcquire,
     PendingRelease(usize, bool),
     PendingLockCheck,
+    /// recovery of one index of the dead ("ghost") owner; a recover call is a sequence of these
+    RecoverOne(usize),
+    /// setup: the ghost owner acquires an index and dies
+    GhostAcquire(usize),
 }
 
 pub struct PoolSpec {
     pub cap: usize,
 }
 impl Spec for PoolSpec {
-    /// (held bitmask, locked)
+    /// (held bitmask | ghost-owned bitmask << 16, locked)
     type S = (u32, bool);
     type O = POp;
     fn init(&self) -> (u32, bool) {
         (0, false)
     }
-    fn step(&self, s: &(u32, bool), op: &POp) -> Vec<(u32, bool)> {
+    fn step(&self, s0: &(u32, bool), op: &POp) -> Vec<(u32, bool)> {
         let full = (1u32 << self.cap) - 1;
-        let one = |x: Option<(u32, bool)>| -> Vec<(u32, bool)> { x.into_iter().collect() };
+        let ghost = s0.0 >> 16;
+        // ghost-owned indices count as held for everybody else
+        let s = &((s0.0 & 0xffff) | ghost, s0.1);
+        let keep = |v: Vec<(u32, bool)>, g: u32| -> Vec<(u32, bool)> { v.into_iter().map(|(h, l)| (((h & 0xffff) & !g) | (g << 16), l)).collect() };
+        let one = |x: Option<(u32, bool)>| -> Vec<(u32, bool)> { keep(x.into_iter().collect(), ghost) };
         match op {
+            POp::GhostAcquire(i) => {
+                if s.0 & (1 << i) != 0 || s.1 {
+                    return vec![];
+                }
+                keep(vec![(s.0, s.1)], ghost | (1 << i))
+            }
+            POp::RecoverOne(i) => {
+                if ghost & (1 << i) == 0 {
+                    return vec![];
+                }
+                keep(vec![(s.0 & !(1 << i), s.1)], ghost & !(1 << i))
+            }
             POp::Acquire(AcqRes::Got(i)) => one(if !s.1 && *i < self.cap && s.0 & (1 << i) == 0 { Some((s.0 | (1 << i), false)) } else { None }),
             POp::Acquire(AcqRes::Out) => one(if !s.1 && s.0 == full { Some(*s) } else { None }),
             POp::Acquire(AcqRes::Locked) => one(if s.1 { Some(*s) } else { None }),
             POp::Release(i, lil, locked) => {
-                if s.0 & (1 << i) == 0 {
+                if s.0 & (1 << i) == 0 || ghost & (1 << i) != 0 {
                     return vec![];
                 }
                 let h = s.0 & !(1 << i);
@@ -61,9 +81,9 @@ impl Spec for PoolSpec {
             }
             POp::PendingAcquire => {
                 if s.1 {
-                    return vec![*s];
+                    return keep(vec![*s], ghost);
                 }
-                (0..self.cap).filter(|i| s.0 & (1 << i) == 0).map(|i| (s.0 | (1 << i), false)).collect()
+                keep((0..self.cap).filter(|i| s.0 & (1 << i) == 0).map(|i| (s.0 | (1 << i), false)).collect(), ghost)
             }
             POp::PendingRelease(i, lil) => {
                 if s.0 & (1 << i) == 0 {
@@ -74,14 +94,14 @@ impl Spec for PoolSpec {
                 if *lil && h == 0 {
                     v.push((h, true));
                 }
-                v
+                keep(v, ghost)
             }
             POp::PendingLockCheck => {
                 let mut v = vec![*s];
                 if s.0 == 0 {
                     v.push((s.0, true));
                 }
-                v
+                keep(v, ghost)
             }
         }
     }
@@ -212,6 +232,9 @@ struct Shared {
     lock_returned: Option<lin::Mark>,
     epilogue_start: Option<usize>,
     killed: bool,
+    ghost_remaining: Vec<usize>,
+    /// recover results per history op index
+    recovered: BTreeMap<usize, Vec<usize>>,
 }
 impl Shared {
     fn err(&mut self, c: &str, m: String) {
@@ -253,7 +276,13 @@ fn do_acquire<P: Pool>(p: &P, sh: &Arc<Mutex<Shared>>, tid: usize, cap: usize, h
                 return r;
             }
             if let Some(o) = g.holder.get(&i).cloned() {
-                g.err("double-owner", format!("index {i} handed to thread {tid} while thread {o} still holds it"));
+                if o == GHOST_TID {
+                    // taken over from the dead owner while a recover is in flight: the linearizability
+                    // check decides whether a recover really freed it
+                    g.probe("acquired_index_freed_by_concurrent_recover");
+                } else {
+                    g.err("double-owner", format!("index {i} handed to thread {tid} while thread {o} still holds it"));
+                }
             }
             if let Some(t) = g.last_release.get(&i).cloned() {
                 g.probe("index_reused");
@@ -269,6 +298,40 @@ fn do_acquire<P: Pool>(p: &P, sh: &Arc<Mutex<Shared>>, tid: usize, cap: usize, h
         AcqRes::Locked => g.probe("acquire_saw_locked"),
     }
     r
+}
+
+pub const GHOST_TID: usize = 7;
+pub const GHOST_OWNER: u64 = 99;
+
+fn do_recover<P: Pool>(p: &P, sh: &Arc<Mutex<Shared>>, tid: usize) {
+    let idx;
+    {
+        let m = mk();
+        let mut g = sh.lock().unwrap();
+        idx = g.ops.len();
+        g.ops.push(POp::RecoverOne(usize::MAX));
+        g.thread_of.push(tid);
+        g.inv.push(m);
+        g.ret.push(None);
+    }
+    let r = p.recover(GHOST_OWNER);
+    let m = mk();
+    let mut g = sh.lock().unwrap();
+    g.ret[idx] = Some(m);
+    for i in r.iter() {
+        if let Some(pos) = g.ghost_remaining.iter().position(|x| x == i) {
+            g.ghost_remaining.remove(pos);
+            if g.holder.get(i) == Some(&GHOST_TID) {
+                g.holder.remove(i);
+            }
+            g.last_release.insert(*i, sim::Token(m.clock));
+            g.probe("recovered_index_of_dead_owner");
+        } else {
+            let m_ = format!("recover of the dead owner reported index {i} which it does not own (any more); remaining {:?}", g.ghost_remaining);
+            g.err("recover", m_);
+        }
+    }
+    g.recovered.insert(idx, r);
 }
 
 fn do_release<P: Pool>(p: &P, sh: &Arc<Mutex<Shared>>, tid: usize, k: usize, lil: bool) {
@@ -313,6 +376,19 @@ fn body<P: Pool>(p: Arc<P>, plan: Plan, sh: Arc<Mutex<Shared>>, cap: usize, hb_d
         g.inflight_release = vec![None; nt + 1];
         g.inflight_acquire = vec![false; nt + 1];
     }
+    // a dead ("ghost") owner that acquired some indices and vanished
+    for _ in 0..plan.p("ghost") {
+        if let AcqRes::Got(i) = p.acquire(GHOST_OWNER) {
+            let m = mk();
+            let mut g = sh.lock().unwrap();
+            g.ops.push(POp::GhostAcquire(i));
+            g.thread_of.push(GHOST_TID);
+            g.inv.push(m);
+            g.ret.push(Some(m));
+            g.holder.insert(i, GHOST_TID);
+            g.ghost_remaining.push(i);
+        }
+    }
     let mut hs = Vec::new();
     for (t, ops) in plan.threads.iter().enumerate() {
         let (p, sh, ops) = (p.clone(), sh.clone(), ops.clone());
@@ -327,6 +403,7 @@ fn body<P: Pool>(p: Arc<P>, plan: Plan, sh: Arc<Mutex<Shared>>, cap: usize, hb_d
                         do_acquire(&*p, &sh, t, cap, hb_deciding);
                     }
                     "rel" => do_release(&*p, &sh, t, o.arg(0) as usize, o.arg(1) != 0),
+                    "rec" => do_recover(&*p, &sh, t),
                     _ => {}
                 }
             }
@@ -375,6 +452,19 @@ fn body<P: Pool>(p: Arc<P>, plan: Plan, sh: Arc<Mutex<Shared>>, cap: usize, hb_d
             }
             g.held_by[d].clear();
             g.probe("recovered_dead_owner");
+        }
+    }
+    if plan.p("ghost") > 0 && !p.is_locked() {
+        let before: Vec<usize> = sh.lock().unwrap().ghost_remaining.clone();
+        do_recover(&*p, &sh, me);
+        let mut g = sh.lock().unwrap();
+        if !g.ghost_remaining.is_empty() {
+            let m_ = format!("sequential recover of the dead owner did not return its indices {:?} (of {before:?})", g.ghost_remaining);
+            g.err("recover", m_);
+            let rest = g.ghost_remaining.clone();
+            for i in rest {
+                g.holder.remove(&i);
+            }
         }
     }
     // quiescent checks
@@ -460,7 +550,17 @@ impl Harness for PoolHarness {
         }
         let mut params = BTreeMap::new();
         params.insert("cap".into(), cap);
-        let kill = if self.kind == "robust" && r.chance(0.25) { r.range(1, nt) } else { 0 };
+        let ghost = if self.kind == "robust" && r.chance(0.4) { r.range(1, cap) } else { 0 };
+        params.insert("ghost".into(), ghost);
+        if ghost > 0 {
+            for t in threads.iter_mut() {
+                if r.chance(0.7) {
+                    let pos = r.range(0, t.len() as i64) as usize;
+                    t.insert(pos, Op::new("rec", &[]));
+                }
+            }
+        }
+        let kill = if self.kind == "robust" && ghost == 0 && r.chance(0.3) { r.range(1, nt) } else { 0 };
         params.insert("kill".into(), kill);
         let plan = Plan { harness: self.name().into(), mode: mode.into(), params, threads };
         let mut cfg = CfgSer::base();
@@ -545,6 +645,12 @@ impl Harness for PoolHarness {
                         ops.push(POp::Release(*x, false, false)); src.push(i); second.push(false);
                         ops.push(POp::LockCheck(*locked)); src.push(i); second.push(true);
                     }
+                    (POp::RecoverOne(_), true) => {
+                        for x in g.recovered.get(&i).cloned().unwrap_or_default() {
+                            ops.push(POp::RecoverOne(x)); src.push(i); second.push(false);
+                        }
+                    }
+                    (POp::RecoverOne(_), false) => {}
                     (o, _) => { ops.push(o.clone()); src.push(i); second.push(false); }
                 }
             }
